@@ -160,7 +160,7 @@ func (a *c20API) GetCode(addr common.Address, block string) hexutil.Bytes {
 	return hexutil.Bytes{0x60, 0x00}
 }
 
-func (a *c20API) EstimateGas(args json.RawMessage) hexutil.Uint64 {
+func (a *c20API) EstimateGas(args json.RawMessage, block *json.RawMessage) hexutil.Uint64 {
 	a.n.enter("eth_estimateGas")
 	return 200_000
 }
@@ -230,7 +230,7 @@ func (a *c20API) SendRawTransaction(raw hexutil.Bytes) (common.Hash, error) {
 	return tx.Hash(), nil
 }
 
-func (a *c20API) Call(args map[string]json.RawMessage, block json.RawMessage) (hexutil.Bytes, error) {
+func (a *c20API) Call(args map[string]json.RawMessage, block *json.RawMessage) (hexutil.Bytes, error) {
 	n := a.n
 	var to common.Address
 	var data hexutil.Bytes
@@ -478,7 +478,7 @@ func runC20Case(rt *rapid.T) {
 	oldUnits := len(c20Simulate(expected, voted, confirmed))
 
 	// keys handed through Publish
-	nHand := rapid.IntRange(0, 4).Draw(rt, "handedKeys")
+	nHand := rapid.SampledFrom([]int{0, 1, 2, 2, 3, 3, 4, 4}).Draw(rt, "handedKeys")
 	var handed []c20Key
 	for i := 0; i < nHand; i++ {
 		l := fmt.Sprintf("key%d", i)
@@ -568,7 +568,18 @@ func runC20Case(rt *rapid.T) {
 		close(chain.release)
 	}
 	// the start-up pass has visibly finished when all its outcomes (and receipts) have been seen
-	if !waitFor(func() bool { return len(chain.units) >= oldUnits && chain.served >= min(chain.txUnits, oldUnits) && (oldUnits == 0 || chain.served == chain.txUnits) }) {
+	if !waitFor(func() bool {
+		if len(chain.units) < oldUnits {
+			return false
+		}
+		txs := 0
+		for _, u := range chain.units[:oldUnits] {
+			if strings.HasPrefix(u, "tx@") {
+				txs++
+			}
+		}
+		return chain.served >= txs
+	}) {
 		inconclusive("the start-up pass did not produce its outcomes within the budget")
 	}
 	for _, k := range order {
@@ -687,5 +698,5 @@ func TestC20_EonKeyPublisher(t *testing.T) {
 		"old DKG results exist only for keyper sets the keyper belongs to (a result carries the keyper's own index)",
 		"wall-clock is used only to give up: a sentinel that never arrives makes the case inconclusive, never a violation",
 	)
-	runRapid(t, N(400, 12000), runC20Case)
+	runRapid(t, N(500, 16000), runC20Case)
 }
